@@ -155,4 +155,5 @@ func chunksGen(tier string, r *rng, emit func(string)) {
 		stmts := genEvalProgram(r, 1+r.intn(7), false, false)
 		emitScript(strings.Join(stmts, "\n"))
 	}
+	chunksGapFamilies(tier, r, emitScript) // chunksfam2.go
 }
